@@ -653,11 +653,9 @@ func (r *proxyStreamReceiver) Run(
 			// channel and cancel func and registers its own entries under the same shard: only clean up entries that
 			// are still ours, or we would remove the successor's cancel func and active-receiver registration.
 			// The cancel func is registered together with the ack channel (and removed together with it by a
-			// terminating successor), so it is still ours exactly when the ack channel is.
-			if current, ok := r.shardManager.GetLocalAckChan(r.sourceShardID); ok && current == r.ackChan {
-				r.shardManager.RemoveLocalAckChan(r.sourceShardID, r.ackChan)
-				r.shardManager.RemoveLocalReceiverCancelFunc(r.sourceShardID)
-			}
+			// terminating successor), so it is still ours exactly when the ack channel is: RemoveLocalAckChan checks the
+			// channel and removes both in one critical section.
+			r.shardManager.RemoveLocalAckChan(r.sourceShardID, r.ackChan)
 			// The active-receiver entry is overwritten only once a successor has opened its stream: remove it unless
 			// that has happened (a successor that fails to open its stream must not leave our entry behind).
 			if current, ok := r.shardManager.GetActiveReceiver(r.sourceShardID); ok && current == ActiveReceiver(r) {
